@@ -26,7 +26,7 @@ LEVEL_TEXT = ("seeded search over projects without externals (plain test_* funct
 LEVEL_NOTE = "trusted: the capture objects standing for snapshots in Example's keyword arguments; the plugin's report headers as its list of pending categories"
 RULE = ("one run = project x category subset x 1-3 steps; per step run_inline, run_pytest (cold subprocess started by the helper) and the plugin (forked) run on "
         "the same files; distinct = (category subset, operations, whether tests raise, step number); non-trivial = at least one file changed by a step")
-RULE += " Dimensions added while testing against seeded changes: INLINE_SNAPSHOT_DEFAULT_FLAGS exported with other flags in the environment of all three executors; same-size repairs followed by further real sessions; xfail tests; files sharing module-level names."
+RULE += " Dimensions added while testing against seeded changes: INLINE_SNAPSHOT_DEFAULT_FLAGS exported with other flags in the environment of all three executors; same-size repairs followed by further real sessions; xfail tests; files sharing module-level names; projects with [tool.black] options handed to all three executors."
 ASSUMPTIONS = ["projects use no externals, fixtures, marks, parametrisation or classes (run_inline documents that it only calls test_* functions)",
                "the 'update' category is compared only through the files (its report section is hidden for empty diffs)"]
 REAL_VS_STUB = {
